@@ -382,7 +382,7 @@ class C07(Plugin):
                 run.stats['faithful_checks'] += 1
         else:
             want = sorted(ndump(x) for x in orig[1])
-            if ret.a.__class__.__name__ != orig[2] and not isinstance(ret.a, ast.Module) and not ret.a.__class__.__name__.startswith('_'):
+            if orig[2] in ('BoolOp', 'Compare', 'MatchOr') and ret.a.__class__.__name__ != orig[2]:
                 # normalised single-element result (e.g. one-operand BoolOp slice returned as the operand itself)
                 if len(want) == 1 and want[0] != ndump(ret.a):
                     raise Violation('slice_copy_not_structurally_equal', f'want={want!r}'[:400] + f' got={ndump(ret.a)!r}'[:400])
